@@ -177,6 +177,12 @@ def grid2geo(zone, easting, northing):
     cm = float((zone * proj[5]) + proj[6] - proj[5])
     long_diff = degrees(atan(sinh(eta1) / cos(xi1)))
     long = cm + long_diff
+    # zones 1 and 60 reach across the +/-180 meridian: same range as the
+    # library's grid2geo
+    if long > 180:
+        long -= 360
+    elif long < -180:
+        long += 360
     return round(lat, 11), round(long, 11)
 
 
